@@ -18,7 +18,7 @@ from sr import symreal
 
 from . import replays
 
-LEVELS = {"A": ["p", "q"], "B": ["r", "s", "t"], "D": ["u", "v"]}
+LEVELS = {"A": ["p", "q"], "B": ["r", "s", "t"], "D": ["u", "v"], "E": ["w"]}
 REPL = 3
 EPS = Fraction(1, 10**8)
 
@@ -31,6 +31,7 @@ def design(point: int):
         "A": pandas.Categorical([r[0] for r in rows], categories=LEVELS["A"]),
         "B": pandas.Categorical([r[1] for r in rows], categories=LEVELS["B"]),
         "D": pandas.Categorical([r[2] for r in rows], categories=LEVELS["D"]),
+        "E": pandas.Categorical(["w"] * n, categories=LEVELS["E"]),  # "all level counts >= 1": a factor with a single level
         "a": numpy.array(num),
     })
 
@@ -175,7 +176,7 @@ def run(check: Check) -> None:
         "A deficiency must persist at a second generic point and in a native float-rank replay before it is reported."
     )
     check.info["rule"] = "case = ordered family of <=3 distinct terms over the 15 factor subsets of {A,B,D,a} x intercept x clustering x contrast"
-    check.bounds.update({"terms": "<=3", "factors": 4, "levels": "2,3,2", "replicates": REPL, "rows": 36, "contrasts": ["treatment"] + (["sum", "helmert", "diff", "poly", "SAS"] if thorough else ["sum", "helmert"])})
+    check.bounds.update({"terms": "<=3", "factors": 4, "levels": "2,3,2 (+ a one-level factor E in dedicated families)", "replicates": REPL, "rows": 36, "contrasts": ["treatment"] + (["sum", "helmert", "diff", "poly", "SAS"] if thorough else ["sum", "helmert"])})
     check.out_of_scope += ["> 3 terms, > 4 factors, > 3 levels", "symbolic numeric data (general position is represented by two generic rational points)"]
     factors = ["A", "B", "D", "a"]
     terms = [":".join(c) for r in range(1, 5) for c in itertools.combinations(factors, r)]
@@ -208,11 +209,22 @@ def run(check: Check) -> None:
     for fam in [("A:B", "B:A:D"), ("D:A", "A:B:D"), ("a:A:B", "a:B:A:D"), ("B:A", "D", "D:B:A"), ("A:D", "B:D", "D:A:B")]:
         cases.append((fam, True, False, None))
         cases.append((fam, False, False, None))
+    # a factor with ONE level (its reduced coding has no column at all): every family of <=2 terms (+ seeded triples) over {E, A, a} and {E, B}
+    for fs in (["E", "A", "a"], ["E", "B"]):
+        ts = [":".join(c) for r in range(1, len(fs) + 1) for c in itertools.combinations(fs, r)]
+        efams = [(t,) for t in ts] + list(itertools.permutations(ts, 2))
+        tri = list(itertools.permutations(ts, 3))
+        rng.shuffle(tri)
+        efams += tri if thorough else tri[:40]
+        for fam in efams:
+            if any("E" in t.split(":") for t in fam):
+                cases.append((fam, True, False, None))
+                cases.append((fam, False, thorough and rng.random() < 0.5, None))
     contrasts = ["sum", "helmert", "diff", "poly", "treatment"] if thorough else ["sum", "helmert"]
     two = [(t,) for t in terms] + list(itertools.permutations(terms, 2))
     for ct in contrasts:
         for fam in (two if thorough else rng.sample(two, 40)):
-            if any(f in LEVELS for t in fam for f in t.split(":")):
+            if any(f in LEVELS and f != "E" for t in fam for f in t.split(":")):
                 cases.append((fam, True, False, ct))
                 if thorough:
                     cases.append((fam, False, False, ct))
